@@ -229,13 +229,16 @@ func (r *Runner) assignIndex(f string) (codes []int, c string, ok bool) {
 				codes = append(codes, idxI64(uniK, v))
 			}
 		}
-	case "A", "PX":
+	case "A", "PX", "O":
 		var t []int
 		if err = r.db.AssignIndex(proto, path, &t); err == nil {
 			for _, v := range t {
-				if f == "A" {
+				switch f {
+				case "A":
 					codes = append(codes, idxInt(uniA, v))
-				} else {
+				case "O":
+					codes = append(codes, idxInt(uniO, v))
+				default:
 					codes = append(codes, idxInt(uniX, v))
 				}
 			}
